@@ -110,6 +110,21 @@ def shape_case(chk, kind, a, b, r):
         p.cross_section = _scale(p.cross_section, 1.7, 0.6, origin=(0, 0))
         p.reevaluate_cache()
         data = dict(data, history="cross_section replaced (stretched 1.7 x 0.6), then reevaluate_cache()")
+    if kind in ('ell', 'tee', 'offbox', 'tri3'):
+        # the chords of the mirror image (same bounds extent, area and perimeter - another shape): every chord is the chord of the mirrored position
+        from shapely.affinity import scale as _sc
+        cs0 = p.cross_section
+        minx0, miny0, maxx0, maxy0 = cs0.bounds
+        zs = [minx0 + f * (maxx0 - minx0) for f in (0.13, 0.37, 0.61, 0.88)]
+        own = [float(p.local_height(z)) for z in zs]
+        cx = (minx0 + maxx0) / 2
+        mirrored = Profile.from_polygon(_sc(cs0, -1.0, 1.0, origin=(cx, 0)), set(p.classifiers))
+        mir = [float(mirrored.local_height(2 * cx - z)) for z in zs]
+        again = [float(p.local_height(z)) for z in zs]
+        if any(abs(a_ - b_) > 1e-9 * (maxy0 - miny0) for a_, b_ in zip(own, mir)) or own != again:
+            chk.fail('local_height_mirror', f"{kind}: local heights {own} at {zs}; its mirror image (evaluated in the same process) gives {mir} at the mirrored positions, "
+                     f"the shape itself afterwards {again}", data)
+            return False
     A = p.cross_section.area
     h, w, rr = float(p.equivalent_height), float(p.equivalent_width), float(p.equivalent_radius)
     er = p.equivalent_rectangle
@@ -196,6 +211,27 @@ def _pass_history(chk, rng, rp, ip, r, plug):
                      f"(round r={r:.4g} mm, {data['history']})", data)
             break
     return ok
+
+
+def mirror_pair_case(chk):
+    """two different shapes with equal bounds, area and perimeter - a lopsided polygon and its mirror image, whole-number coordinates - evaluated in one
+    process, in both orders: each one's local heights and widths are its own chords"""
+    from pyroll.core import Profile
+    from shapely.geometry import Polygon, LineString
+    base = [(-4, 0), (4, 0), (4, 1), (-1, 3), (-4, 1)]
+    shapes = {'lopsided': Polygon(base), 'mirrored': Polygon([(-x, y) for x, y in reversed(base)])}
+    for order in (('lopsided', 'mirrored'), ('mirrored', 'lopsided')):
+        profs = {k: Profile.from_polygon(shapes[k], {'generic'}) for k in order}
+        for k in order:
+            for z in (-3.0, -1.5, 0.5, 2.0, 3.5):
+                chk.cov['evaluations'] += 1
+                got = float(profs[k].local_height(z))
+                col = shapes[k].intersection(LineString([(z, -10), (z, 10)]))
+                want = col.length
+                if abs(got - want) > 1e-9:
+                    return chk.fail('local_height_mirror', f"{k} pentagon {list(shapes[k].exterior.coords)[:-1]} (evaluated {'first' if k == order[0] else 'after its mirror image'}): "
+                                    f"local_height({z}) = {got}, the chord is {want}", {'kind': 'mirror-pair', 'order': list(order)})
+    return True
 
 
 def sequence_case(chk, rng, layout):
@@ -285,6 +321,8 @@ def oracle(chk, n):
         ev += 1
         seen.add(('p', i))
         pass_case(chk, rng, i)
+    if not chk.failures:
+        mirror_pair_case(chk)
     for layout in ('flat', 'nested', 'nested-first', 'nested-twice'):
         ev += 1
         seen.add(('q', layout))
